@@ -233,7 +233,7 @@ def canon_raw(v):
     if isinstance(v, int):
         return "i:%d" % v
     if isinstance(v, float):
-        return "f:" + enc_rat(v)
+        return "f:" + (enc_rat(v) if v == v and v not in (float("inf"), float("-inf")) else repr(v))
     if isinstance(v, str):
         return "s:" + enc_str(v)
     if isinstance(v, (list, tuple)):
